@@ -394,6 +394,9 @@ pub struct BuildCtx<'a> {
     pub f: &'a QFields,
     /// restrict sloppy phrases to two distinct terms (known finding C03 slop semantics)
     pub restrict_slop: bool,
+    /// turn prefix-fuzzy leaves with distance > 0 into plain fuzzy leaves (known finding: the prefix
+    /// Levenshtein automaton rejects some terms that have a prefix within the distance)
+    pub restrict_fuzzy_prefix: bool,
     pub excluded: std::cell::RefCell<Vec<&'static str>>,
 }
 
@@ -416,6 +419,14 @@ pub fn normalise(q: &Q, cx: &BuildCtx) -> Q {
                 slop = 0;
             }
             Q::Phrase { words: words.clone(), slop }
+        }
+        Q::Fuzzy { word, distance, transposition, prefix } => {
+            if *prefix && *distance > 0 && cx.restrict_fuzzy_prefix {
+                cx.excluded.borrow_mut().push("fuzzy_prefix_with_distance(prefix flag dropped)");
+                Q::Fuzzy { word: *word, distance: *distance, transposition: *transposition, prefix: false }
+            } else {
+                q.clone()
+            }
         }
         Q::Range(rf, a, b) => {
             let fix = |x: &B| match x {
